@@ -15,9 +15,7 @@ structure Spec where
   reqs : List (Nat × Nat) := []   -- add-reader request id ↦ reader
   avail : Bool := false           -- a stream is up (`ready` seen, no `notready` since)
   mustClose : List Nat := []      -- readers attached when the stream went away in this op, not yet closed
-  sawBadSub : Bool := false       -- the history contains a failed SubStream.Initialize (decidable class)
   err : Option String := none
-  known : Option String := none
 
 def Spec.fail (sp : Spec) (m : String) : Spec := if sp.err.isSome then sp else { sp with err := some m }
 
@@ -26,8 +24,7 @@ def specTok (sp : Spec) (t : String) : Spec :=
   else if t == "ready" then
     if sp.avail && !sp.att.isEmpty then
       -- the stream object was replaced while readers were attached to the old one, none of them closed
-      let m := s!"stream replaced without closing attached readers {sp.att}"
-      if sp.sawBadSub then { sp with known := some m } else sp.fail m
+      sp.fail s!"stream replaced without closing attached readers {sp.att}"
     else { sp with avail := true }
   else match Drv.tokNat "rd!" t with
   | some r => { sp with att := sp.att.filter (· != r), mustClose := sp.mustClose.filter (· != r) }
@@ -45,17 +42,15 @@ def specTok (sp : Spec) (t : String) : Spec :=
     else sp
 
 def specOp (sp : Spec) (o : Drv.Op) (impl : String) : Spec :=
-  let sp := { sp with err := none, known := none, mustClose := [] }
+  let sp := { sp with err := none, mustClose := [] }
   match o with
   | .reset c =>
-    ((Drv.implToks impl).filter (fun t => !t.startsWith "fix=")).foldl specTok { max := c.conf.maxReaders }
+    (Drv.implToks impl).foldl specTok { max := c.conf.maxReaders }
   | _ =>
     let before := sp.att
     let sp := match o with
       | .ev (.removeReader r) => { sp with att := sp.att.filter (· != r) }
       | .ev (.addReader rid r) => { sp with reqs := (rid, r) :: sp.reqs }
-      | .ev (.addPublisher _ false) => { sp with sawBadSub := true }
-      | .ev (.srcReady false) => { sp with sawBadSub := true }
       | _ => sp
     let toks := Drv.implToks impl
     let sp := toks.foldl specTok sp
@@ -73,9 +68,8 @@ def specOp (sp : Spec) (o : Drv.Op) (impl : String) : Spec :=
     else sp
 
 def Spec.verdict (sp : Spec) : String :=
-  match sp.err, sp.known with
-  | some m, _ => "FAIL " ++ m
-  | none, some m => "KNOWN subinit-fail " ++ m
-  | none, none => "ok"
+  match sp.err with
+  | some m => "FAIL " ++ m
+  | none => "ok"
 
 end MtxVerif.C18
